@@ -187,7 +187,7 @@ def _items(obs):
     runs = []
     cur = None
     for i, e in enumerate(obs["entries"]):
-        for d in e["docs"]:
+        for j, d in enumerate(e["docs"]):
             if d["kind"] == "start":
                 cur = {"streams": {}, "stop": None, "rewinds": []}
                 runs.append(cur)
@@ -196,7 +196,7 @@ def _items(obs):
             if d["kind"] == "event":
                 cur["streams"].setdefault(d["stream"], []).append({"start": d["seq"], "stop": d["seq"] + 1, "kind": _src_of_entry(e, d), "entry": i, "ok": True})
             if d["kind"] == "stream_datum":
-                cur["streams"].setdefault(d["stream"], []).append({"start": d["seqRange"][0], "stop": d["seqRange"][1], "kind": "collect", "entry": i, "ok": e["err"] is None, "resource": d["resource"]})
+                cur["streams"].setdefault(d["stream"], []).append({"start": d["seqRange"][0], "stop": d["seqRange"][1], "kind": "collect", "entry": i, "ok": e["err"] is None and j not in e.get("failed", ()), "resource": d["resource"]})
             if d["kind"] == "stop":
                 cur["stop"] = dict(d["numEvents"])
         if cur is not None and any(o["op"] == "rewind" for o in e["ops"]):
@@ -275,7 +275,8 @@ def oracle_C05_live(case, obs):
                 for n in list(live):
                     live[n] = perm.get(n, 0)
             datum_done = set()
-            for d in o["docs"]:
+            failed = set(o.get("failed", ()))
+            for j, d in enumerate(o["docs"]):
                 if d["kind"] == "event":
                     n = d["stream"]
                     if d["seq"] != live.get(n, 0) + 1:
@@ -283,16 +284,20 @@ def oracle_C05_live(case, obs):
                     live[n] = live.get(n, 0) + 1
                     if name != "save":
                         perm[n] = live[n]
-                elif d["kind"] == "stream_datum" and o["err"] is None:
+                elif d["kind"] == "stream_datum" and o["err"] is None and j not in failed:
                     n = d["stream"]
                     if n in datum_done:
-                        continue  # the datums of one collect share the range
+                        continue  # the datums of one collect share the start; their widths are 0 or the common width
                     datum_done.add(n)
-                    a, bb = d["seqRange"]
-                    if a != live.get(n, 0) + 1:
-                        bad.append(("C05:datum-not-next-live", f"stream {n}: datum range [{a},{bb}) but {live.get(n, 0)} data points are live"))
-                    live[n] = live.get(n, 0) + (bb - a)
-                    if bb > a:
+                    ranges = [x["seqRange"] for jj, x in enumerate(o["docs"]) if x["kind"] == "stream_datum" and x["stream"] == n and jj not in failed]
+                    width = max(bb - a for a, bb in ranges)
+                    for a, bb in ranges:
+                        if a != live.get(n, 0) + 1:
+                            bad.append(("C05:datum-not-next-live", f"stream {n}: datum range [{a},{bb}) but {live.get(n, 0)} data points are live"))
+                        if bb - a not in (0, width):
+                            bad.append(("C05:datum-widths-differ", f"stream {n}: datum range [{a},{bb}) in a collect of width {width}"))
+                    live[n] = live.get(n, 0) + width
+                    if width > 0:
                         perm[n] = live[n]
                 elif d["kind"] == "stop":
                     for n, N in d["numEvents"]:
